@@ -1,6 +1,6 @@
 /-
-The world-login `into_server_header_crypto` / `into_client_header_crypto` of VANILLA (the TBC and Wrath copies are proved against the
-hand-written table only, in Props/Source/ApiWorld.lean; their call sites have the same text) with `calculate_world_server_proof` meaning its TRANSLATED term (see
+The world-login `into_server_header_crypto` / `into_client_header_crypto` of all three expansions (both functions for Vanilla, the deciding
+`into_server_header_crypto` for TBC and Wrath) with `calculate_world_server_proof` meaning its TRANSLATED term (see
 Props/Source/ApiLinkBase.lean): the arguments at the call site — user name, session key, the object's own seed, the peer's seed — handed
 positionally to the parameters of the callee's signature (username, session_key, server_seed, client_seed) give the model's function.
 -/
@@ -40,6 +40,43 @@ theorem C06_linked_into_client (C : Crypto) (u : NStr) (K : Bytes) (seed serverS
   simp [Gen.CodeApi.vanillaIntoClient, ApiFn.run, runBody, Rhs.eval, drawKinds, Ret.eval, atomsVal, Atom.val, lookup, bindVar, worldLinkedPrims, worldPrims,
     hw, selfSeed, ProofSeed.intoClientHeaderCrypto, Out.bind, bind]
 
+
+/-- the TBC copy: same statement about the TBC module's own term and constructor -/
+theorem C06_linked_tbc_into_server (C : Crypto) (u : NStr) (K proof : Bytes) (seed clientSeed : Nat) (h1 : seed < 2 ^ 32) (h2 : clientSeed < 2 ^ 32) :
+    Gen.CodeApi.tbcIntoServer.run (worldLinkedPrims C) (selfSeed seed) [.nstr u, .bytes K, .bytes proof, .num clientSeed] []
+      = some (.ok (match ProofSeed.intoServerHeaderCrypto C .tbc seed u K proof clientSeed with
+          | .error er => (.err (valMatchErr er), selfSeed seed, [])
+          | .ok _ => (.ok (cryptoMark "tbc_header::HeaderCrypto::new" K), selfSeed seed, []))) := by
+  have hw := hashCallee_world_proof C u K seed clientSeed h1 h2
+  by_cases hM : calculateWorldServerProof C u.asRef K seed clientSeed = proof
+  · simp [Gen.CodeApi.tbcIntoServer, ApiFn.run, runBody, Rhs.eval, drawKinds, Ret.eval, atomsVal, fieldsVal, Atom.val, lookup, bindVar, worldLinkedPrims,
+      worldPrims, hw, selfSeed, valMatchErr, eqVal, ProofSeed.intoServerHeaderCrypto, hM, Out.bind, bind]
+  · have hb : (calculateWorldServerProof C u.asRef K seed clientSeed == proof) = false := by simp [hM]
+    simp [hb, Gen.CodeApi.tbcIntoServer, ApiFn.run, runBody, Rhs.eval, drawKinds, Ret.eval, atomsVal, fieldsVal, Atom.val, lookup, bindVar,
+      worldLinkedPrims, worldPrims, hw, selfSeed, valMatchErr, eqVal, ProofSeed.intoServerHeaderCrypto, hM, Out.bind, bind]
+
+/-- the Wrath copy -/
+theorem C06_linked_wrath_into_server (C : Crypto) (u : NStr) (K proof : Bytes) (seed clientSeed : Nat) (h1 : seed < 2 ^ 32) (h2 : clientSeed < 2 ^ 32) :
+    Gen.CodeApi.wrathIntoServer.run (worldLinkedPrims C) (selfSeed seed) [.nstr u, .bytes K, .bytes proof, .num clientSeed] []
+      = some ((ProofSeed.wrathIntoServer C seed u K proof clientSeed).bind (fun r => match r with
+          | .error er => .ok (.err (valMatchErr er), selfSeed seed, [])
+          | .ok _ => .ok (.ok (cryptoMark "wrath_header::ServerCrypto::new" K), selfSeed seed, []))) := by
+  have hw := hashCallee_world_proof C u K seed clientSeed h1 h2
+  simp only [ProofSeed.wrathIntoServer]
+  by_cases hM : calculateWorldServerProof C u.asRef K seed clientSeed = proof
+  · cases hN : WServerCrypto.new C K with
+    | panic m =>
+      simp [Gen.CodeApi.wrathIntoServer, ApiFn.run, runBody, Rhs.eval, drawKinds, Ret.eval, atomsVal, fieldsVal, Atom.val, lookup, bindVar, worldLinkedPrims,
+        worldPrims, hw, selfSeed, valMatchErr, eqVal, hM, hN, Out.bind, bind]
+    | ok c =>
+      simp [Gen.CodeApi.wrathIntoServer, ApiFn.run, runBody, Rhs.eval, drawKinds, Ret.eval, atomsVal, fieldsVal, Atom.val, lookup, bindVar, worldLinkedPrims,
+        worldPrims, hw, selfSeed, valMatchErr, eqVal, hM, hN, Out.bind, bind]
+  · have hb : (calculateWorldServerProof C u.asRef K seed clientSeed == proof) = false := by simp [hM]
+    simp [hb, Gen.CodeApi.wrathIntoServer, ApiFn.run, runBody, Rhs.eval, drawKinds, Ret.eval, atomsVal, fieldsVal, Atom.val, lookup, bindVar, worldLinkedPrims,
+      worldPrims, hw, selfSeed, valMatchErr, eqVal, hM, Out.bind, bind]
+
 #print axioms C06_linked_into_server
+#print axioms C06_linked_tbc_into_server
+#print axioms C06_linked_wrath_into_server
 #print axioms C06_linked_into_client
 end WowSrp
